@@ -138,6 +138,10 @@ func gen(c *common.Ctx, emit func(...string)) {
 		emit("each", strconv.Itoa(n), t)
 		for _, k := range []string{"1", "2"} {
 			emit("peach", k, strconv.Itoa(n), t, sched(r, "l"))
+			if n >= 2 && strings.ContainsAny(t, "be") {
+				// targeted schedule: hold every worker after its Done / Release
+				emit("peach", k, strconv.Itoa(n), t, sched(r, "l")+":h600")
+			}
 		}
 	}
 	cases := c.Scale(900, 6000)
@@ -154,7 +158,11 @@ func gen(c *common.Ctx, emit func(...string)) {
 		k := common.Pick(r, bounds)
 		reps := c.Scale(3, 6)
 		for j := 0; j < reps; j++ {
-			emit("peach", k, strconv.Itoa(n), t, sched(r, common.Pick(r, []string{"l", "p"})))
+			sc := sched(r, common.Pick(r, []string{"l", "p"}))
+			if k != "inf" && n >= 2 && n <= 12 && pBad > 0 && r.Chance(1, 4) {
+				sc += ":h" + strconv.Itoa(common.Pick(r, []int{300, 800, 2000}))
+			}
+			emit("peach", k, strconv.Itoa(n), t, sc)
 		}
 		if k == "1" || r.Chance(1, 4) {
 			emit("each", strconv.Itoa(n), t)
@@ -183,6 +191,63 @@ type recorder struct {
 	badEnded  bool
 	perturbN  atomic.Uint64
 	unknownCb int
+	hold      time.Duration
+	holdMu    sync.Mutex
+	armed     map[int64]bool // goroutines to be held at their next hook point
+	holds     int            // how many times a goroutine was held
+}
+
+// enabling reports whether the hook label announces an action that lets
+// another goroutine proceed (the hooks log such actions BEFORE performing them).
+func enabling(label string) bool {
+	switch label {
+	case "peach.release", "peach.done", "peach.frel", "rp.done":
+		return true
+	}
+	return false
+}
+
+func goID() int64 {
+	var buf [64]byte
+	n := runtime.Stack(buf[:], false)
+	var id int64
+	for _, c := range buf[len("goroutine "):n] {
+		if c < '0' || c > '9' {
+			break
+		}
+		id = id*10 + int64(c-'0')
+	}
+	return id
+}
+
+// hook is the perturbation installed at every hook point of pkg/eval.  In
+// hold mode the yield sits between an enabling action and whatever the same
+// goroutine does next — e.g. between a worker's Release and a (misplaced)
+// update of the "broken" flag or of err, or between Done and a late merge of
+// the exception.  In the code as it is a worker's only step after Done is
+// Release and it has none after Release, so holding changes nothing but timing.
+func (r *recorder) hook(label string) {
+	if r.hold > 0 {
+		g := goID()
+		r.holdMu.Lock()
+		was := r.armed[g]
+		if enabling(label) {
+			if r.armed == nil {
+				r.armed = map[int64]bool{}
+			}
+			r.armed[g] = true
+		} else if was {
+			delete(r.armed, g)
+		}
+		if was {
+			r.holds++
+		}
+		r.holdMu.Unlock()
+		if was {
+			time.Sleep(r.hold)
+		}
+	}
+	r.pause(uint64(len(label)))
 }
 
 func mix(z uint64) uint64 {
@@ -293,17 +358,30 @@ type schedSpec struct {
 	seed  uint64
 	rate  int
 	input string
+	// hold > 0: a goroutine that has announced an enabling action (a
+	// worker's Release or Done, the feeder's own Release) is put to sleep
+	// for this long at its NEXT hook point, so that whatever it enabled (the
+	// feeder blocked in Acquire / Wait) runs ahead of anything the goroutine
+	// still does afterwards (optional 5th field "h<µs>").
+	hold time.Duration
 }
 
 func parseSched(s string) schedSpec {
 	p := strings.Split(s, ":")
 	sp := schedSpec{procs: 2, rate: 0, input: "l"}
-	if len(p) == 4 {
+	if len(p) == 4 || len(p) == 5 {
 		sp.procs, _ = strconv.Atoi(p[0])
 		sd, _ := strconv.ParseUint(p[1], 10, 64)
 		sp.seed = sd
 		sp.rate, _ = strconv.Atoi(p[2])
 		sp.input = p[3]
+		if len(p) == 5 && strings.HasPrefix(p[4], "h") {
+			us, _ := strconv.Atoi(p[4][1:])
+			if us > 20000 {
+				us = 20000
+			}
+			sp.hold = time.Duration(us) * time.Microsecond
+		}
 	}
 	if sp.procs < 1 {
 		sp.procs = 1
@@ -354,7 +432,7 @@ func RunProgram(code string, rec *recorder, sp schedSpec, ctx context.Context,
 		return
 	}
 	base := runtime.NumGoroutine()
-	pf := func(label string) { rec.pause(uint64(len(label))) }
+	pf := func(label string) { rec.hook(label) }
 	eval.VerifPerturb.Store(&pf)
 	eval.VerifTraceStart(labels...)
 	t0 := time.Now()
@@ -637,7 +715,7 @@ func newRecorder(cb string, sp schedSpec) (*recorder, error) {
 	if err != nil {
 		return nil, err
 	}
-	return &recorder{outcome: o, nouts: m, seed: sp.seed, rate: sp.rate}, nil
+	return &recorder{outcome: o, nouts: m, seed: sp.seed, rate: sp.rate, hold: sp.hold}, nil
 }
 
 // ExecOp runs one op spec on the real code (called in the child process).
@@ -708,6 +786,9 @@ func peachTag(k string, n int, rec *recorder, toks []string) string {
 	}
 	if bad {
 		tag += ",bad"
+	}
+	if rec.holds > 0 {
+		tag += ",held"
 	}
 	for _, t := range toks {
 		if t == "d1" {
